@@ -42,6 +42,20 @@ partial def pMap : List String → List (Scalar × PVal) → Option (PVal × Lis
         | none => none
 end
 
+def showScalar : Scalar → String
+  | .str s => "s" ++ encStr s
+  | .int n => "i" ++ toString n
+  | .bool true => "T"
+  | .bool false => "F"
+  | .none => "N"
+
+mutual
+partial def showVal : PVal → List String
+  | .sc s => [showScalar s]
+  | .seq xs => ["["] ++ (xs.map showVal).flatten ++ ["]"]
+  | .map kvs => ["{"] ++ (kvs.map (fun kv => showScalar kv.1 :: showVal kv.2)).flatten ++ ["}"]
+end
+
 def parseVal (f : String) : Option PVal :=
   match pVal (f.splitOn " ") with
   | some (v, []) => some v
@@ -113,6 +127,14 @@ def handle (fs : List String) : String :=
     | some s =>
       (match decode s with
        | some (v, r) => "some\t" ++ encStr (ser v) ++ "\t" ++ encStr r
+       | none => "none")
+    | none => "bad-op"
+  | ["decv", s] =>
+    -- decode an arbitrary text into a value (used to search for a second value with the same text)
+    match decStr s with
+    | some s =>
+      (match decode s with
+       | some (v, r) => "some\t" ++ " ".intercalate (showVal v) ++ "\t" ++ encStr r
        | none => "none")
     | none => "bad-op"
   | ["excl", p] =>
